@@ -602,6 +602,9 @@ func (o *coreOracle) OnReconcileEnd(s *Sim, info *RecInfo) {
 	if info.Ctrl != "batchrelease" || info.Err != nil || info.Task == nil || info.Task.Flags["br-status-write"] {
 		return
 	}
+	if s.firedEvents() != "" {
+		return // judged only in undisturbed releases (degradation by pod faults): user disturbances have their own oracles
+	}
 	k := ObjKey{GK: gkBR, NS: info.Req.Namespace, Name: info.Req.Name}
 	rd := asReadBR(info.Task, k)
 	if rd == nil || rd.DeletionTimestamp != nil || rd.Spec.ReleasePlan.BatchPartition == nil || rd.Status.Phase != v1beta1.RolloutPhaseProgressing ||
